@@ -608,6 +608,7 @@ class Interp(object):
         self.mod_inited = set()
         self.apply_decorators = set()    # qualified names of repository decorators to interpret
         self._decorated = {}
+        self._callkeys = []              # (function, argument identities) of the interpreted frames
         self._lru = {}                   # results of functions under functools.lru_cache / cache
         self.work = 0                    # cost of linear-time primitives (list membership, copies, sorting ...): see cost()
         if hasattr(explorer, "interps"):
@@ -911,6 +912,13 @@ class Interp(object):
     def _call_func(self, f, args, kwargs):
         node = f.node
         if self.depth > 60:
+            # the same function entered again and again with the very same arguments: unbounded recursion, which
+            # Python ends with RecursionError (anything else: the analyser's own depth bound, no verdict)
+            seen = {}
+            for k_ in self._callkeys:
+                seen[k_] = seen.get(k_, 0) + 1
+            if seen and max(seen.values()) >= 4:
+                raise AbsRaise("RecursionError", ("maximum recursion depth exceeded",))
             self.unsupported("interpreted call depth")
         env = Env(f.closure)
         a = node.args
@@ -963,12 +971,14 @@ class Interp(object):
         self.depth += 1
         if self.depth > self.max_depth:
             self.max_depth = self.depth
+        self._callkeys.append((id(node), tuple(id(a_) for a_ in args)))
         try:
             self.exec_block(node.body, env, ctx)
         except _Return as r:
             return r.value
         finally:
             self.depth -= 1
+            self._callkeys.pop()
         return None
 
     def run_generator(self, node, env, ctx):
